@@ -51,6 +51,11 @@ def interval(body, op, depth=0):
             vals = _array_ints(cc.get("pp", ""))
             if vals:
                 return (min(vals), max(vals))
+    if proj and [e for e in proj if not (isinstance(e, dict) and "downcast" in e)] and all(isinstance(e, dict) and ("downcast" in e or e.get("f") == 0) for e in proj) \
+            and len([e for e in proj if isinstance(e, dict) and "f" in e]) == 1:
+        r_ = _payload_interval(body, l, depth + 1)
+        if r_ is not None and r_ != "empty":
+            return r_
     if d is None:
         return INT_RANGES.get(ty) if not proj else None
     kind, bb, j, x = d
@@ -127,6 +132,50 @@ def interval(body, op, depth=0):
         if r is not None:
             return r
     return INT_RANGES.get(ty)
+
+
+PAYLOAD_WRAPPERS = ("branch", "ok_or", "ok_or_else", "map_err", "ok", "or", "or_else", "into", "from", "into_iter", "clone", "copied", "cloned")
+
+
+def _payload_interval(body, l, depth=0):
+    """interval of the single payload of an Option/Result/ControlFlow local whose every definition is `Some(<interval>)`-like, an
+    empty variant, or a payload-preserving wrapper call of such a value (`opt.ok_or_else(..)?`)"""
+    if depth > 12:
+        return None
+    out = None
+    ds = body.defs.get(l, [])
+    if not ds:
+        return None
+    for kind, bb, j, x in ds:
+        iv = None
+        if kind == "call":
+            cs = CallSite(body, bb, x)
+            if (cs.fn or cs.name or "").rsplit("::", 1)[-1] in PAYLOAD_WRAPPERS and cs.args and op_local(cs.args[0]) is not None and not (op_place(cs.args[0]) or {}).get("p"):
+                iv = _payload_interval(body, op_local(cs.args[0]), depth + 1)
+                if iv == "empty":
+                    continue
+            if iv is None:
+                return None
+        elif x.get("s") == "assign":
+            rv = x["rv"]
+            if x["lhs"]["p"]:
+                return None
+            if rv["k"] == "agg" and rv.get("agg") == "adt":
+                if not rv.get("ops"):
+                    continue                      # None / unit-like variant: no payload on this path
+                if len(rv["ops"]) != 1:
+                    return None
+                iv = interval(body, rv["ops"][0], depth + 1)
+            elif rv["k"] == "use" and op_local(rv["op"]) is not None and not (op_place(rv["op"]) or {}).get("p"):
+                iv = _payload_interval(body, op_local(rv["op"]), depth + 1)
+                if iv == "empty":
+                    continue
+            if iv is None:
+                return None
+        else:
+            return None
+        out = iv if out is None else (min(out[0], iv[0]), max(out[1], iv[1]))
+    return out if out is not None else "empty"
 
 
 def _guarded_decrement(body, bb, l):
@@ -373,6 +422,10 @@ ALLOW = {
         (8, "json! to_value of strings"),
     ("acme_common::crypto::openssl_keys::KeyPair::get_eddsa_jwk", "range", "alloc::string::String::replace_range"):
         (1, "removes the 16-character base64 prefix of an Ed25519/Ed448 SPKI, which is 44/69 bytes = at least 59 base64 characters"),
+    ("acme_common::crypto::openssl_keys::KeyPair::get_eddsa_jwk", "range", "alloc::string::String::split_off"):
+        (1, "the same cut written as split_off(16): an Ed25519/Ed448 SPKI is at least 59 base64 characters"),
+    ("acme_common::crypto::openssl_keys::KeyPair::get_eddsa_jwk", "range", "alloc::string::String::drain"):
+        (1, "the same cut written as drain(..16)"),
     ("acme_common::crypto::openssl_keys::KeyPair::from_pem", "assert", "Overflow(Mul)"):
         (1, "RSA modulus size in bytes (u32, at most 2^13 for OpenSSL) times 8 in an error message"),
     ("acme_common::crypto::openssl_keys::KeyPair::from_der", "assert", "Overflow(Mul)"):
